@@ -7,14 +7,20 @@ package main
 // ops (one per line, space separated):
 //   cg <ssh|x509|k8s> <cookie|basic|cert|ipcert> <ageSeconds> <q|m> <hex duration | ~>
 //        -> <status> <parsed: absent|err|int64 ns> <iat ns | now> <tb ns> <ta ns> <validAfter|- > <validBefore|- >
-//   role <handler|refresh|direct>
-//        -> <status> <Duration ns chosen by the parameter parser | -> <tb> <ta> <notBefore> <notAfter>
+//   role <handler|refresh|direct> [<presented lifetime ns | -> <role|ext|-> <hex form duration | ~>]
+//        refresh: the IP-restricted certificate presented is minted with certgen.GenIPRestrictedX509Cert
+//        for the given lifetime under keymaster's role CA (role) or under another client CA (ext);
+//        an optional `duration` form field is sent along (the handlers document one but must not obey it blindly)
+//        -> <status> <Duration ns chosen by the parameter parser | -> <tb> <ta> <notBefore> <notAfter> [<NotAfter-NotBefore of the presented certificate, ns | ->]
 //   aws  -> <status> - <tb> <ta> <notBefore> <notAfter>
 //   secs <int64 ns>
 //        -> decimal value of uint64(time.Duration(ns).Seconds()) as computed by this platform
 
 import (
 	"bytes"
+	"crypto"
+	"crypto/ecdsa"
+	"crypto/elliptic"
 	"crypto/rand"
 	"crypto/tls"
 	"crypto/x509"
@@ -34,6 +40,7 @@ import (
 	"testing"
 	"time"
 
+	"github.com/Cloud-Foundations/keymaster/lib/certgen"
 	"github.com/Cloud-Foundations/keymaster/lib/server/aws_identity_cert"
 	"github.com/Cloud-Foundations/keymaster/lib/webapi/v0/proto"
 	"github.com/go-jose/go-jose/v4"
@@ -159,6 +166,19 @@ func TestVerifC03(t *testing.T) {
 		t.Fatal(err)
 	}
 	_, block10, _ := net.ParseCIDR("10.0.0.0/8")
+	// a second client CA, as loaded through client_ca_filename
+	extCAKey, err := ecdsa.GenerateKey(elliptic.P256(), rand.Reader)
+	if err != nil {
+		t.Fatal(err)
+	}
+	extCADer, err := certgen.GenSelfSignedCACert("external-client-ca", "example", extCAKey)
+	if err != nil {
+		t.Fatal(err)
+	}
+	extCA, err := x509.ParseCertificate(extCADer)
+	if err != nil {
+		t.Fatal(err)
+	}
 	awsSeq := 0
 
 	for _, line := range vio.ops {
@@ -286,12 +306,37 @@ func TestVerifC03(t *testing.T) {
 			}
 			vio.emit("%d %s %s %d %d %s %s", rr.Code, parsed, iatNs, tb, ta, va, vb)
 		case "role":
-			if len(f) != 2 {
+			if len(f) != 2 && len(f) != 5 {
 				vio.emit("bad-op")
 				continue
 			}
 			form := url.Values{}
 			form.Add("pubkey", b64public)
+			presentedLifetime := time.Hour
+			presentedCA := "role"
+			presented := ""
+			if len(f) == 5 {
+				if f[2] != "-" {
+					n, err := strconv.ParseInt(f[2], 10, 64)
+					if err != nil {
+						vio.emit("bad-op")
+						continue
+					}
+					presentedLifetime = time.Duration(n)
+				}
+				if f[3] != "-" {
+					presentedCA = f[3]
+				}
+				if f[4] != "~" {
+					d, ok := vfUnhex(f[4])
+					if !ok {
+						vio.emit("bad-op")
+						continue
+					}
+					form.Add("duration", d)
+				}
+				presented = " -"
+			}
 			var handler http.HandlerFunc
 			path := getRoleRequestingPath
 			chosen := "-"
@@ -306,13 +351,32 @@ func TestVerifC03(t *testing.T) {
 				handler = state.roleRequetingCertGenHandler
 				cookie = vfAuthCookie(t, state, "admin1", AuthTypePassword)
 			case "refresh":
-				params := roleRequestingCertGenParams{Role: "role1", Duration: time.Hour,
-					RequestorNetblocks: []net.IPNet{*block10}, UserPub: userPub}
-				_, rrcert, err := state.withParamsGenerateRoleRequestingCert(&params)
+				var issuerCert *x509.Certificate
+				var issuerKey crypto.Signer
+				switch presentedCA {
+				case "role":
+					issuerCert, issuerKey = roleCA, state.Signer
+				case "ext":
+					issuerCert, issuerKey = extCA, extCAKey
+				default:
+					vio.emit("bad-op")
+					continue
+				}
+				// minted directly: keymasterd itself never hands out more than 45 days, another
+				// CA in the TLS client pool (or an older keymaster) may have
+				der, err := certgen.GenIPRestrictedX509Cert("role1", userPub, issuerCert, issuerKey,
+					[]net.IPNet{*block10}, presentedLifetime, nil, nil)
 				if err != nil {
 					t.Fatal(err)
 				}
-				chain := []*x509.Certificate{rrcert, roleCA}
+				rrcert, err := x509.ParseCertificate(der)
+				if err != nil {
+					t.Fatal(err)
+				}
+				if presented != "" {
+					presented = " " + strconv.FormatInt(int64(rrcert.NotAfter.Sub(rrcert.NotBefore)), 10)
+				}
+				chain := []*x509.Certificate{rrcert, issuerCert}
 				tlsState = &tls.ConnectionState{VerifiedChains: [][]*x509.Certificate{chain}, PeerCertificates: chain[:1]}
 				handler = state.refreshRoleRequestingCertGenHandler
 				path = refreshRoleRequestingCertPath
@@ -343,32 +407,32 @@ func TestVerifC03(t *testing.T) {
 			}
 			if f[1] == "direct" {
 				if params == nil {
-					vio.emit("500 %s 0 0 - -", chosen)
+					vio.emit("500 %s 0 0 - -%s", chosen, presented)
 					continue
 				}
 				tb := time.Now().UnixNano()
 				pemCert, _, err := state.withParamsGenerateRoleRequestingCert(params)
 				ta := time.Now().UnixNano()
 				if err != nil {
-					vio.emit("500 %s %d %d - -", chosen, tb, ta)
+					vio.emit("500 %s %d %d - -%s", chosen, tb, ta, presented)
 					continue
 				}
 				nb, na := vfC03X509Window([]byte(pemCert))
-				vio.emit("200 %s %d %d %s %s", chosen, tb, ta, nb, na)
+				vio.emit("200 %s %d %d %s %s%s", chosen, tb, ta, nb, na, presented)
 				continue
 			}
 			tb := time.Now().UnixNano()
 			rr, p := vfServe(handler, mk())
 			ta := time.Now().UnixNano()
 			if p != nil {
-				vio.emit("PANIC %s %d %d - -", chosen, tb, ta)
+				vio.emit("PANIC %s %d %d - -%s", chosen, tb, ta, presented)
 				continue
 			}
 			nb, na := "-", "-"
 			if rr.Code == 200 {
 				nb, na = vfC03X509Window(rr.Body.Bytes())
 			}
-			vio.emit("%d %s %d %d %s %s", rr.Code, chosen, tb, ta, nb, na)
+			vio.emit("%d %s %d %d %s %s%s", rr.Code, chosen, tb, ta, nb, na, presented)
 		case "aws":
 			awsSeq++
 			req := httptest.NewRequest("POST", "/aws/requestRoleCertificate/v1", strings.NewReader(testUserPEMPublicKey))
